@@ -882,17 +882,17 @@ pub fn run(ctx: &Ctx) {
     ctx.set_rule("artifacts made with rPGP's signing APIs over zoo keys (detached binary/text, builder one-pass, SignatureConfig; cleartext; certifications 0x10/0x13/0x30, subkey and primary-key bindings, direct-key, key revocation; whole zoo certificates public and secret); one perturbation per case: (a) content - bit flip, truncation, extension, swap, insertion; different user id / subkey / signee key; (b) signature packet at field level - type, public-key algorithm, hash algorithm, any bit of the hashed area, hashed-area length, salt, any bit of the signature value; (c) verifying key - decoy key of the same algorithm, same material with another creation time, same material as a key of the other version; oracle: positive control on the unperturbed artifact, then every applicable entry point (Signature::verify via PublicKey and SignedPublicKey, DetachedSignature::verify, Message::verify / verify_nested_explicit on a prefixed message, cleartext verify / verify_many, verify_third_party_certification, verify_subkey_binding, verify_primary_key_binding, verify_key_third_party, Signed{Public,Secret}Key::verify_bindings) must return Err unless the parser rejected the artifact or it is semantically identical (re-encoding / same canonical text / dropped component); non-trivial = semantic change with passing control; distinct = (artifact kind, key, field, position)");
     ctx.assume("unhashed area, left-16 octets and ECDSA/DSA (r, n-s) malleability are outside the property and not perturbed");
     zoo::warm(zoo::ALL);
-    let n = ctx.tier.pick(12_000u64, 250_000);
+    let n = ctx.tier.pick(12_000u64, 1_000_000);
     ctx.group("data-signatures", Source::Random { n, tape_len: 200 }, |t, rec| data_case(t, rec, zoo::CHEAP_SIGNERS));
-    let n = ctx.tier.pick(800u64, 20_000);
+    let n = ctx.tier.pick(800u64, 80_000);
     ctx.group("data-signatures-all-algorithms", Source::Random { n, tape_len: 200 }, |t, rec| data_case(t, rec, zoo::ALL_SIGNERS));
-    let n = ctx.tier.pick(4_000u64, 80_000);
+    let n = ctx.tier.pick(4_000u64, 320_000);
     ctx.group("text-signatures-at-normalizer-block-edges", Source::Indexed { count: edge_count() }, edge_case);
-    let n_op = ctx.tier.pick(4000u64, 80_000);
+    let n_op = ctx.tier.pick(4000u64, 320_000);
     ctx.group("one-pass-messages", Source::Random { n: n_op, tape_len: 200 }, one_pass_message_case);
     ctx.group("cleartext", Source::Random { n, tape_len: 120 }, cleartext_case);
     ctx.group("certificate-signatures", Source::Random { n, tape_len: 160 }, cert_sig_case);
-    let n = ctx.tier.pick(6_000u64, 150_000);
+    let n = ctx.tier.pick(6_000u64, 600_000);
     ctx.group("whole-certificates", Source::Random { n, tape_len: 64 }, certificate_case);
     let _ = Tier::Quick;
 }
